@@ -258,18 +258,51 @@ fn cmd_determinism(args: &[String]) -> i32 {
                 let (fam, fam_idx) = driver::family_of(&fams, i);
                 let case = check.gen_indexed(base, i, fam, fam_idx, tier);
                 let _ = seed;
-                let a = driver::eval_case(check.as_ref(), &case, Duration::from_secs(120));
-                let b = driver::eval_case(check.as_ref(), &case, Duration::from_secs(120));
+                let traced = std::env::var("SIM_DET_TRACE_SEED").ok().and_then(|s| s.parse::<u64>().ok()) == Some(seed);
+                let run_t = |c: &scenario::Case, tag: &str| -> driver::ChildResult {
+                    if !traced {
+                        return driver::eval_case(check.as_ref(), c, Duration::from_secs(120));
+                    }
+                    std::env::set_var("SIM_TRACE_RANGE", "0-100000000");
+                    std::env::set_var("SIM_CHILD_STDERR", "1");
+                    let f = std::fs::File::create(format!("/tmp/dett_{}_{}.txt", seed, tag)).unwrap();
+                    use std::os::unix::io::AsRawFd;
+                    let saved = unsafe { libc::dup(2) };
+                    unsafe { libc::dup2(f.as_raw_fd(), 2) };
+                    let r = driver::eval_case(check.as_ref(), c, Duration::from_secs(120));
+                    unsafe { libc::dup2(saved, 2); libc::close(saved) };
+                    std::env::remove_var("SIM_TRACE_RANGE");
+                    std::env::remove_var("SIM_CHILD_STDERR");
+                    r
+                };
+                let a = run_t(&case, "a");
+                let b = run_t(&case, "b");
                 // third execution: explicit replay of the recorded decisions
                 let mut c2 = case.clone();
                 c2.recorded = a.recorded.clone();
-                let c = driver::eval_case(check.as_ref(), &c2, Duration::from_secs(120));
+                let c = run_t(&c2, "c");
                 let h = |r: &driver::ChildResult| r.stats.as_ref().map(|s| (s.trace_hash, s.steps, s.switches));
                 // (a run stopped by a budget has no statistics; its class is compared up to the stack site)
                 let va = |r: &driver::ChildResult| r.violations.iter().map(|v| if v.class.starts_with("unbounded") { v.class.split('@').next().unwrap_or("").to_string() } else { v.class.clone() }).collect::<Vec<_>>();
                 let ok = h(&a) == h(&b) && (h(&a).is_some() || !a.violations.is_empty()) && va(&a) == va(&b);
                 let ok_replay = h(&a) == h(&c) && va(&a) == va(&c);
                 out.push_str(&format!("{} {} {} {:?} {:?} {:?}\n", seed, ok, ok_replay, h(&a), h(&b), h(&c)));
+                if !ok_replay && std::env::var_os("SIM_DET_DEBUG").is_some() {
+                    std::env::set_var("SIM_TRACE_RANGE", "0-100000000");
+                    std::env::set_var("SIM_CHILD_STDERR", "1");
+                    let run = |c: &scenario::Case, path: &str| -> driver::ChildResult {
+                        let f = std::fs::File::create(path).unwrap();
+                        use std::os::unix::io::AsRawFd;
+                        let saved = unsafe { libc::dup(2) };
+                        unsafe { libc::dup2(f.as_raw_fd(), 2) };
+                        let r = driver::eval_case(check.as_ref(), c, Duration::from_secs(120));
+                        unsafe { libc::dup2(saved, 2); libc::close(saved) };
+                        r
+                    };
+                    let c3 = run(&c2, &format!("/tmp/det_{}_replay.txt", seed));
+                    let a3 = run(&case, &format!("/tmp/det_{}_seeded.txt", seed));
+                    out.push_str(&format!("DEBUG {} replay-again {:?} seeded-again {:?}\n", seed, h(&c3), h(&a3)));
+                }
                 i += jobs as u64;
             }
             sim::raw_write_fd(fds[1], out.as_bytes());
@@ -305,6 +338,35 @@ fn cmd_determinism(args: &[String]) -> i32 {
     }
 }
 
+/// debugging aid: run one seed seeded and as an explicit replay, each with a full event trace written to a file
+fn cmd_tracecmp(args: &[String]) -> i32 {
+    let id = &args[0];
+    let seed: u64 = args[1].parse().unwrap();
+    let base: u64 = arg_val(args, "--base").and_then(|s| s.parse().ok()).unwrap_or(1);
+    let check = checks::by_id(id).expect("known check");
+    let fams = check.families(Tier::Quick);
+    let i = seed.wrapping_sub(base);
+    let (fam, fam_idx) = driver::family_of(&fams, i);
+    let case = check.gen_indexed(base, i, fam, fam_idx, Tier::Quick);
+    std::env::set_var("SIM_TRACE_RANGE", "0-100000000");
+    std::env::set_var("SIM_CHILD_STDERR", "1");
+    let run = |c: &scenario::Case, path: &str| -> driver::ChildResult {
+        let f = std::fs::File::create(path).unwrap();
+        use std::os::unix::io::AsRawFd;
+        let saved = unsafe { libc::dup(2) };
+        unsafe { libc::dup2(f.as_raw_fd(), 2) };
+        let r = driver::eval_case(check.as_ref(), c, Duration::from_secs(120));
+        unsafe { libc::dup2(saved, 2) };
+        r
+    };
+    let a = run(&case, "/tmp/trace_a.txt");
+    let mut c2 = case.clone();
+    c2.recorded = a.recorded.clone();
+    let b = run(&c2, "/tmp/trace_b.txt");
+    println!("family {} a={:?} b={:?}", fam, a.stats.as_ref().map(|s| (s.trace_hash, s.steps)), b.stats.as_ref().map(|s| (s.trace_hash, s.steps)));
+    0
+}
+
 fn main() {
     let args: Vec<String> = std::env::args().skip(1).collect();
     let code = match args.get(0).map(|s| s.as_str()) {
@@ -312,6 +374,7 @@ fn main() {
         Some("replay") => cmd_replay(&args[1..]),
         Some("one") => cmd_one(&args[1..]),
         Some("determinism") => cmd_determinism(&args[1..]),
+        Some("tracecmp") => cmd_tracecmp(&args[1..]),
         _ => {
             eprintln!("usage: compass-sim check|replay|one|determinism ...");
             2
